@@ -491,10 +491,11 @@ def str_method(E, r, m, args, kw, st, out, node):
         if z3.is_string_value(tv) and pystr(tv) == "":
             return [(st, VStr(z3.Function("py_str_payload", PyObj, S)(args[0].t)))]
     if m == "splitlines":
-        v, asm = fresh(LIST(STR), "splitlines")
-        for a in asm:
-            st.assume(a)
-        return [(st, v)]
+        # a function of the receiver: the same text always splits into the same list (length and elements uninterpreted)
+        n_ = z3.Function("py_splitlines_len", S, I)(t)
+        arr = z3.Function("py_splitlines_arr", S, z3.ArraySort(I, S))(t)
+        st.assume(n_ >= 0)
+        return [(st, VList(n_, [arr], STR))]
     if m == "split":
         tv = z3.simplify(t)
         if z3.is_string_value(tv) and args and z3.is_string_value(z3.simplify(args[0].t)):
